@@ -119,6 +119,9 @@ func randomConnected(r *rand.Rand, n int) [][2]int {
 type c18Fault struct {
 	Kind string // remove-link, remove-router, add-link, isolate-router
 	A, B int
+	// Merge: the next fault happens before any advertisement is exchanged (two topology changes
+	// land between two fetches, so one advertisement both adds and withdraws destinations)
+	Merge bool `json:",omitempty"`
 }
 
 type c18Case struct {
@@ -209,6 +212,10 @@ func c18Execute(c *h.Ctx, id string, cs c18Case, schedSeed int64, profile string
 				continue
 			}
 			s.setLink(f.A, f.B, true)
+		}
+		if f.Merge && pi+1 < len(phases) {
+			c.Count("merged_faults", 1)
+			continue
 		}
 		// ---- run rounds to the fixed point (bounded progress)
 		bound := 2 * (cs.n + 16)
@@ -367,7 +374,7 @@ func c18Faults(r *rand.Rand, n int, edges [][2]int, k int) []c18Fault {
 		case 0, 1:
 			if len(cur) > 0 {
 				j := r.Intn(len(cur))
-				fs = append(fs, c18Fault{"remove-link", cur[j][0], cur[j][1]})
+				fs = append(fs, c18Fault{Kind: "remove-link", A: cur[j][0], B: cur[j][1]})
 				cur = append(cur[:j:j], cur[j+1:]...)
 			}
 		case 2:
@@ -380,9 +387,14 @@ func c18Faults(r *rand.Rand, n int, edges [][2]int, k int) []c18Fault {
 				if a > b {
 					a, b = b, a
 				}
-				fs = append(fs, c18Fault{"add-link", a, b})
+				fs = append(fs, c18Fault{Kind: "add-link", A: a, B: b})
 				cur = append(cur, [2]int{a, b})
 			}
+		}
+	}
+	for i := range fs {
+		if i+1 < len(fs) && r.Intn(3) == 0 {
+			fs[i].Merge = true
 		}
 	}
 	return fs
@@ -407,16 +419,16 @@ func c18Run(c *h.Ctx) {
 			cases = append(cases, c18Case{n: 6, edges: randomConnected(gr, 6)})
 		}
 	}
-	nSched := c.Pick(2, 6)
+	nSched := c.Pick(3, 6)
 	for ci, base := range cases {
 		if ci%c.NBatch != c.Batch {
 			continue
 		}
-		for variant := 0; variant < c.Pick(2, 4); variant++ {
+		for variant := 0; variant < c.Pick(4, 6); variant++ {
 			cs := base
 			fr := rand.New(rand.NewSource(c.Seed*1000003 + int64(ci)*101 + int64(variant)))
 			if variant > 0 {
-				cs.faults = c18Faults(fr, cs.n, cs.edges, 1+fr.Intn(3))
+				cs.faults = c18Faults(fr, cs.n, cs.edges, 1+fr.Intn(4))
 			}
 			var ref []string
 			for sd := 0; sd < nSched; sd++ {
